@@ -26,7 +26,7 @@ TRUSTED = ["gcc ASan/UBSan/LSan and clang MSan runtimes; harness wrappers around
 ASSUMPTIONS = ["crashes, assertion failures, out-of-bounds / uninitialised accesses and heap leaks are runtime behaviour the "
                "Coq model cannot exhibit: for them this check is a sanitized exploration of the listed streams, not a proof",
                "CLI tools (src/main/*.c) are exercised by tools/props/c11.py:cli_stream on generated files only"]
-SOURCES = ["c01", "c02", "c03", "c05", "c06", "c08", "c09", "c10", "c12", "c13", "c14", "c15", "c17", "c20"]
+SOURCES = ["c01", "c02", "c03", "c05", "c06", "c08", "c09", "c10", "c12", "c13", "c14", "c15", "c16", "c17", "c20"]
 CODES = {2: "usage reported by CMRgetStackUsage differs from the StackModel", 3: "free with nothing allocated",
          4: "trace ends with chunks still allocated", 1: "malformed trace"}
 
